@@ -21,6 +21,7 @@ MUTANTS = [
      "old": "            elif new_bounds.definitive() or new_bounds.lower_bound > starting_bounds.lower_bound \\\n"
             "                    or new_bounds.upper_bound < starting_bounds.upper_bound:\n                return True\n",
      "new": "            else:\n                return True\n"},
+    {"name": "c04_revert_collection_partial_upper", "property": "C04", "patch": "revert_b32d610.patch"},
     {"name": "c04_revert_search_upper_clamp", "property": "C04", "patch": "revert_04ecdb5.patch"},
     {"name": "c04_search_lower_bound_ignores_tightened", "property": "C04", "file": "search.py",
      "old": "        yield from self._untightened.nodes()\n        yield from self._tightened.nodes()\n",
